@@ -16,7 +16,7 @@ crate or none, remove — on live handles, removed handles, ids that never exist
 names — interleaved with the membership and track operations, on any of the eleven 1.x schema versions
 (`s` is universally quantified; it only selects between table and view statements and id allocation).
 -/
-import Proofs.CratesV1Coroll
+import Proofs.CratesV1Closure
 
 namespace EngineModel.Properties.C07V1
 open EngineModel EngineModel.Api.CratesV1 EngineModel.Spec EngineModel.Pure.Detect
@@ -106,6 +106,31 @@ theorem C07_forest_wellformed (s : Schema) (ops : List Op) :
       · exact Or.inl e.symm
       · exact Or.inr ((isAncestor_iff hf a p).mp hm)
 
+/-- The same, directly on the Model's queries: in every reachable state `children(c)` is exactly the set of crates
+whose `parent()` is `c`, `descendants(c)` is exactly the transitive closure of that relation, `root_crates()` is
+exactly the valid crates without a parent, and `parent()` of a valid crate is absent or valid. -/
+theorem C07_children_descendants_roots_from_parent (s : Schema) (ops : List Op) :
+    let db := run s Db.empty ops
+    (∀ c k, k ∈ crateChildren db c ↔ crateParent db k = .ok (some c)) ∧
+    (∀ c y, y ∈ crateDescendants db c ↔ Relation.TransGen (fun x p => crateParent db x = .ok (some p)) y c) ∧
+    (∀ x, x ∈ dbRootCrates db ↔ (crateIsValid db x = .ok true ∧ crateParent db x = .ok none)) ∧
+    (∀ x p, crateParent db x = .ok (some p) → crateIsValid db x = .ok true ∧ crateIsValid db p = .ok true) ∧
+    (∀ c, (crateChildren db c).Nodup ∧ (crateDescendants db c).Nodup) := by
+  intro db
+  have h : Inv db := inv_run s ops inv_empty
+  have hf := h.toFInv
+  refine ⟨children_iff_parent hf, descendants_iff_transGen hf, roots_iff_no_parent hf, ?_, ?_⟩
+  · intro x p hp
+    have := hf.par_live ((parentIs_iff hf x p).mp hp)
+    exact ⟨(isValid_iff hf x).mpr this.1, (isValid_iff hf p).mpr this.2⟩
+  · intro c
+    constructor
+    · unfold crateChildren
+      exact hf.cplNodup.sublist (List.Sublist.map _ List.filter_sublist)
+    · have := subtreeList_nodup hf c
+      unfold subtreeList at this
+      exact (List.nodup_cons.mp this).2
+
 /-! ### the bullet points of the property text -/
 
 /-- "invalid names are rejected without effect" — in ANY state (not only reachable ones), for the three
@@ -124,6 +149,11 @@ theorem C07_failed_call_changes_nothing (s : Schema) (ops : List Op) (op : Op)
     (hr : (step s (run s Db.empty ops) op).2.isOk = false) :
     (step s (run s Db.empty ops) op).1 = run s Db.empty ops :=
   step_throw_unchanged s (inv_run s ops inv_empty) op hr
+
+/-- non-vacuity: calls that fail — a duplicate root name, a rename of a removed crate. -/
+example : (step .schema_1_9_1 (run .schema_1_9_1 Db.empty [.createRoot [97]]) (.createRoot [97])).2.isOk = false ∧
+    (step .schema_1_9_1 (run .schema_1_9_1 Db.empty [.createRoot [97], .removeCrate 1]) (.rename 1 [98])).2.isOk = false := by
+  decide +kernel
 
 /-- "a re-parenting that would create a cycle is rejected leaving the forest unchanged": under itself or
 under any of its descendants, in every reachable state. -/
